@@ -625,7 +625,9 @@ for t in cands:
 print('no disagreement on', len(cands), 'texts built around', repr(base))
 sys.exit(0)
 """
-    return {'script': script, 'input': text, 'search': True}
+    return {'script': script, 'input': text, 'search': True,
+            'decides': {'raised': ['C04', 'C08'],
+                        'parser gives': ['C08']}}
 
 
 def scanner_contracts(tier):
